@@ -40,7 +40,7 @@ func run(c *mon.Case) {
 		// beginning 32 and more bytes into the read
 		win = 280
 		if base > 1<<63 {
-			base = 1<<64 - 400
+			base = 1<<64 - 600 // window + widest access stay below 2^64
 		}
 		c.Count("wide_window_histories", 1)
 	}
